@@ -129,31 +129,34 @@ def cachePut (o : CacheOps σ) (r : Reader σ) (c : σ) (b : Option Nat) :
       | some (c', .kept (some v)) => .ok ({ r with hints := r.hints.drop 1 }, c', some v, true)
       | some (_, .panic) => .error .panic
 
+/-- which block the reader keeps for the next decompression after `cachePut` on the miss path of `cacheSwap`:
+none when the cache retained the block (a fresh one will be allocated), else the block handed back — unless
+(repair C03-2) the cache still answers `Peek` for its base -/
+def recycle (cfg : Cfg) (o : CacheOps σ) (r2 : Reader σ) (c2 : σ) (retained : Bool) (back : Option Nat) :
+    Option Nat :=
+  if retained then none
+  else match back with
+    | none => none
+    | some id => if cfg.peekGuard && (o.peek r2.hview c2 (r2.heap id).base).1 then none else some id
+
 /-- `cacheSwap(base)`: `true` = the current block was swapped for a cached one -/
 def cacheSwap (cfg : Cfg) (o : CacheOps σ) (r : Reader σ) (base : Int) : Except Fault (Reader σ × Bool) :=
   match r.cache with
   | none => .ok (r, false)
   | some c =>
-    let (c1, g) := o.get r.hview c base
-    match g with
-    | some id =>
+    match o.get r.hview c base with
+    | (c1, some id) =>
       -- cachedBlockFor: blk.seek(0)
       let r1 := r.setB id { r.heap id with pos := 0, offBlock := 0 }
       -- cachePut(bg.current): result discarded
       match cachePut o r1 c1 r1.cur with
       | .error e => .error e
       | .ok (r2, c2, _, _) => .ok ({ r2 with cache := some c2, cur := some id }, true)
-    | none =>
+    | (c1, none) =>
       match cachePut o r c1 r.cur with
       | .error e => .error e
       | .ok (r2, c2, back, retained) =>
-        let cur' : Option Nat :=
-          if retained then none
-          else match back with
-            | none => none
-            | some id =>
-              if cfg.peekGuard && (o.peek r2.hview c2 (r2.heap id).base).1 then none else some id
-        .ok ({ r2 with cache := some c2, cur := cur' }, false)
+        .ok ({ r2 with cache := some c2, cur := recycle cfg o r2 c2 retained back }, false)
 
 /-- the loop at the head of `nextBlockAt`: skip members the cache already holds.  `fuel` = number of held
 entries + 1: `Peek` does not change anything, so not terminating within that many steps means a cycle. -/
@@ -163,40 +166,52 @@ def peekSkip (o : CacheOps σ) (h : Heap) (c : σ) : Nat → Int → Except Faul
     let (e, nx) := o.peek h c off
     if e then peekSkip o h c fuel nx else .ok off
 
+/-- the head of `nextBlockAt`: the offset that will really be read -/
+def skipCached (o : CacheOps σ) (r : Reader σ) (off : Int) : Except Fault Int :=
+  match r.cache with
+  | none => .ok off
+  | some c => peekSkip o r.hview c ((o.held c).length + 1) off
+
+/-- `lazyBlock`: the block to decompress into — the one handed over by `using(bg.current)`, or a new one -/
+def lazyBlock (r : Reader σ) : Reader σ × Nat :=
+  match r.cur with
+  | some id => (r, id)
+  | none => ({ r with fresh := r.fresh + 1, cur := some r.fresh }.setB r.fresh {}, r.fresh)
+
+/-- `d.blk.setBase(off)`; with repair C03-1 the block also forgets its previous data -/
+def rebase (cfg : Cfg) (b : RBlk) (off : Int) : RBlk :=
+  if cfg.clearOnRebase then { b with base := off, offFile := off, offBlock := 0, hasData := false, data := [], pos := 0 }
+  else { b with base := off, offFile := off, offBlock := 0 }
+
+/-- the rest of `nextBlockAt` once the offset is known: `lazyBlock`, `setBase`, `readMember`, `setHeader`,
+`readFrom` -/
+def loadAt (cfg : Cfg) (f : File) (r : Reader σ) (off : Int) : Reader σ × Err :=
+  let (r, id) := lazyBlock r
+  let b1 := rebase cfg (r.heap id) off
+  match f.find off with
+  | some m => (r.setB id { b1 with hsize := m.size, data := m.data, pos := 0, hasData := true }, .none)
+  | none => (r.setB id b1, if off ≥ f.len then .eof else .other)
+
 /-- `dec.using(bg.current).nextBlockAt(off).wait()`: the new current block and the error -/
 def nextBlockAt (cfg : Cfg) (o : CacheOps σ) (f : File) (r : Reader σ) (off : Int) :
     Except Fault (Reader σ × Err) :=
-  let off' : Except Fault Int :=
-    match r.cache with
-    | none => .ok off
-    | some c => peekSkip o r.hview c ((o.held c).length + 1) off
-  match off' with
+  match skipCached o r off with
   | .error e => .error e
-  | .ok off =>
-    -- lazyBlock
-    let (r, id) : Reader σ × Nat :=
-      match r.cur with
-      | some id => (r, id)
-      | none => ({ r with fresh := r.fresh + 1, cur := some r.fresh }.setB r.fresh {}, r.fresh)
-    -- d.blk.setBase(off)
-    let b0 := r.heap id
-    let b1 : RBlk := { b0 with base := off, offFile := off, offBlock := 0 }
-    let b1 : RBlk := if cfg.clearOnRebase then { b1 with hasData := false, data := [], pos := 0 } else b1
-    -- readMember / setHeader / readFrom
-    match f.find off with
-    | some m => .ok (r.setB id { b1 with hsize := m.size, data := m.data, pos := 0, hasData := true }, .none)
-    | none => .ok (r.setB id b1, if off ≥ f.len then .eof else .other)
+  | .ok off => .ok (loadAt cfg f r off)
+
+/-- make the member at `base` the current block: from the cache if it is there, else by decompression
+(the common part of `nextBlock` and `Seek`) -/
+def fetch (cfg : Cfg) (o : CacheOps σ) (f : File) (r : Reader σ) (base : Int) : Except Fault (Reader σ × Err) :=
+  match cacheSwap cfg o r base with
+  | .error e => .error e
+  | .ok (r1, true) => .ok (r1, .none)
+  | .ok (r1, false) => nextBlockAt cfg o f r1 base
 
 /-- `nextBlock()` -/
 def nextBlock (cfg : Cfg) (o : CacheOps σ) (f : File) (r : Reader σ) : Except Fault (Reader σ × Err) :=
   match r.cur with
   | none => .error .panic
-  | some id =>
-    let base := (r.heap id).next
-    match cacheSwap cfg o r base with
-    | .error e => .error e
-    | .ok (r1, true) => .ok (r1, .none)
-    | .ok (r1, false) => nextBlockAt cfg o f r1 base
+  | some id => fetch cfg o f r (r.heap id).next
 
 inductive ErrClass
   | ok
@@ -209,30 +224,28 @@ def Err.cls : Err → ErrClass
   | .eof => .eof
   | .other => .err
 
+/-- the tail of `Seek`: `bg.err = bg.current.seek(blk)`; `lastChunk = {off, off}` -/
+def seekFin (r : Reader σ) (file : Int) (blk : Nat) : Except Fault (Reader σ × ErrClass) :=
+  match r.cur with
+  | none => .error .panic
+  | some id =>
+    if !(r.heap id).hasData then .error .panic
+    else
+      let r := r.setB id { r.heap id with pos := blk, offBlock := blk }
+      .ok ({ r with err := .none, chunkBegin := (file, blk), chunkEnd := (file, blk) }, .ok)
+
 /-- `Seek(Offset{file, blk})` -/
 def seek (cfg : Cfg) (o : CacheOps σ) (f : File) (r : Reader σ) (file : Int) (blk : Nat) :
     Except Fault (Reader σ × ErrClass) :=
   match r.cur with
   | none => .error .panic
   | some id =>
-    let fin (r : Reader σ) : Except Fault (Reader σ × ErrClass) :=
-      match r.cur with
-      | none => .error .panic
-      | some id =>
-        if !(r.heap id).hasData then .error .panic
-        else
-          let r := r.setB id { r.heap id with pos := blk, offBlock := blk }
-          .ok ({ r with err := .none, chunkBegin := (file, blk), chunkEnd := (file, blk) }, .ok)
     if file ≠ (r.heap id).base || !(r.heap id).hasData then
-      match cacheSwap cfg o r file with
+      match fetch cfg o f r file with
       | .error e => .error e
-      | .ok (r1, true) => fin r1
-      | .ok (r1, false) =>
-        match nextBlockAt cfg o f r1 file with
-        | .error e => .error e
-        | .ok (r2, e) =>
-          if e = .none then fin { r2 with err := .none } else .ok ({ r2 with err := e }, e.cls)
-    else fin r
+      | .ok (r2, e) =>
+        if e = .none then seekFin { r2 with err := .none } file blk else .ok ({ r2 with err := e }, e.cls)
+    else seekFin r file blk
 
 /-- `for bg.current.len() == 0 { bg.err = bg.nextBlock(); if bg.err != nil { return } }` -/
 def skipEmpty (cfg : Cfg) (o : CacheOps σ) (f : File) : Nat → Reader σ → Except Fault (Reader σ)
@@ -274,8 +287,9 @@ def readLoop (cfg : Cfg) (o : CacheOps σ) (f : File) :
           let r1 := r.setB id { b with pos := b.pos + k, offBlock := b.offBlock + k, used := true }
           readLoop cfg o f fuel r1 (want - k) (acc ++ bytes)
 
-def fuelFor (o : CacheOps σ) (f : File) (r : Reader σ) (n : Nat) : Nat :=
-  n + f.length + 3 + (match r.cache with | none => 0 | some c => (o.held c).length)
+/-- enough for every loop of `Read`: each iteration delivers at least one byte or moves to another member,
+and between two deliveries at most all members (plus the failing fetch at the end) are passed -/
+def fuelFor (f : File) (n : Nat) : Nat := (n + 1) * (f.length + 2) + 1
 
 def curOffset (r : Reader σ) : Int × Nat :=
   match r.cur with
@@ -287,40 +301,39 @@ def read (cfg : Cfg) (o : CacheOps σ) (f : File) (r : Reader σ) (n : Nat) :
     Except Fault (Reader σ × List Nat × ErrClass) :=
   if r.err ≠ .none then .ok (r, [], r.err.cls)
   else
-    match skipEmpty cfg o f (fuelFor o f r 0) r with
+    match skipEmpty cfg o f (fuelFor f 0) r with
     | .error e => .error e
     | .ok r1 =>
       if r1.err ≠ .none then .ok (r1, [], r1.err.cls)
       else
         let r2 := { r1 with chunkBegin := curOffset r1 }
-        match readLoop cfg o f (fuelFor o f r2 n) r2 n [] with
+        match readLoop cfg o f (fuelFor f n) r2 n [] with
         | .error e => .error e
         | .ok (r3, bytes, true) =>
           -- Blocked: bg.err = nil; lastChunk.End = …; return n, io.EOF
           .ok ({ r3 with err := .none, chunkEnd := curOffset r3 }, bytes, .eof)
         | .ok (r3, bytes, false) => .ok ({ r3 with chunkEnd := curOffset r3 }, bytes, r3.err.cls)
 
+/-- the tail of `ReadByte`: `skipEmpty` left a block with `len() > 0`, so `current.ReadByte` succeeds -/
+def byteFin (r : Reader σ) : Except Fault (Reader σ × List Nat × ErrClass) :=
+  match r.cur with
+  | none => .error .panic
+  | some id =>
+    let b := r.heap id
+    match (b.data.drop b.pos).head? with
+    | none => .error .panic
+    | some x =>
+      let r3 := r.setB id { b with pos := b.pos + 1, offBlock := b.offBlock + 1, used := true }
+      .ok ({ r3 with chunkBegin := b.txOffset, chunkEnd := (b.offFile, b.offBlock + 1) }, [x], .ok)
+
 /-- `ReadByte()` -/
 def readByte (cfg : Cfg) (o : CacheOps σ) (f : File) (r : Reader σ) :
     Except Fault (Reader σ × List Nat × ErrClass) :=
   if r.err ≠ .none then .ok (r, [], r.err.cls)
   else
-    match skipEmpty cfg o f (fuelFor o f r 0) r with
+    match skipEmpty cfg o f (fuelFor f 0) r with
     | .error e => .error e
-    | .ok r1 =>
-      if r1.err ≠ .none then .ok (r1, [], r1.err.cls)
-      else
-        match r1.cur with
-        | none => .error .panic
-        | some id =>
-          let b := r1.heap id
-          let r2 := { r1 with chunkBegin := b.txOffset }
-          -- skipEmpty left a block with len() > 0, so current.ReadByte succeeds
-          match (b.data.drop b.pos).head? with
-          | none => .error .panic
-          | some x =>
-            let r3 := r2.setB id { b with pos := b.pos + 1, offBlock := b.offBlock + 1, used := true }
-            .ok ({ r3 with chunkEnd := (r3.heap id).txOffset }, [x], .ok)
+    | .ok r1 => if r1.err ≠ .none then .ok (r1, [], r1.err.cls) else byteFin r1
 
 /-- `NewReader`: the first member is decompressed at once -/
 def newReader (o : CacheOps σ) (cfg : Cfg) (f : File) : Except Fault (Reader σ × Err) :=
